@@ -8,7 +8,7 @@ for d in seeded/*/; do
     echo "$id: patch no longer applies to the current tree (the code it changes was repaired / rewritten since)"; echo "{\"applies\": false}" > $d/recheck.json; continue
   fi
   git -C /repo apply $PWD/$d/patch.diff
-  out=$(./check $prop --tier quick 2>/dev/null | grep -E "^VIOLATION|tier=" | head -3 | tr '\n' ' ')
+  out=$(VERIF_EVIDENCE_DIR=/tmp/seed_evidence ./check $prop --tier quick 2>/dev/null | grep -E "^VIOLATION|tier=" | head -3 | tr '\n' ' ')
   git -C /repo checkout -- .
   det=false; echo "$out" | grep -q VIOLATION && det=true
   nf=false; echo "$out" | grep -q no-failing-input-found && nf=true
